@@ -296,6 +296,7 @@ def run(chk):
     chk.extra["stream_sizes"] = counts
     chk.extra["accepted_with_signer"] = sum(1 for (o, im, d) in o3 if im.startswith("ok signer=x"))
     chk.trusted.append("OpenPGP oracles: golang.org/x/crypto/openpgp clearsign.Decode and CheckDetachedSignature called directly by the harness")
+    chk.trusted.append("control/verif_hooks.go (//go:build verif, add-only, /repo 9b0bf4b): hands the unexported armorChecksumLineOK to the harness op armorok; ARM.xline is a MODEL of golang.org/x/crypto's lineReader.Read for a candidate checksum line (compared with the library only through whole documents), ARM.decode4 of encoding/base64 on four characters (compared exhaustively over fourteen characters), ARM.checksum_line of armor.Encode (compared on random data)")
     chk.assumptions += ["cryptographic soundness of x/crypto/openpgp is an oracle; the theorems and the tie are about the glue around it",
                         "RSA-1024 test keys generated once per build directory (build/pgpkeys.asc)"]
 
